@@ -112,6 +112,16 @@ def run(run_, tier):
     n = symla_systems.run_cases(run_, "c08_cases", keep=lambda oid: "projection-" not in oid)
     transitions(run_)
     run_.notes.append(f"{n} system configurations")
+    # the metric adapters replace the metric at the end of a warm-up stage and redraw the momenta: a momentum update too -- the draw must
+    # use the metric the chain continues with (C17's obligation `momenta-refreshed-under-new-metric`, imported)
+    from . import c17
+    from .trans_model import FilterRun
+    it17 = c17.make_interp(run_)
+    fr = FilterRun(run_, lambda oid: "momenta-refreshed-under-new-metric" in oid or "metric-is-inverse" in oid)
+    run_.replay_for("adapters.", lambda w: {"script": "c17_adapters.py", "args": ["all", json.dumps(w or {})], "timeout": 600})
+    c17.variance(fr, it17)
+    c17.covariance(fr, it17, "quick")
+    run_.function("mici.adapters.OnlineVarianceMetricAdapter.finalize / OnlineCovarianceMetricAdapter.finalize (momentum redraw under the new metric)")
     # sample_momentum is `metric.sqrt @ z`: that sqrt @ sqrt.T is the metric, for every positive definite matrix class, every way
     # such a metric is derived (inverse, positive multiple) and every dimension, is the C10 contract of `sqrt` -- imported here:
     # Engine D (generic dimension, composite + leaf classes) and Engine B (entrywise at fixed shapes)
